@@ -530,6 +530,7 @@ class World:
             info.setdefault('isolation_failures', []).append(
                 ('late-write-changed-mdib', 'writing into handed-out / result objects after the transaction changed the MDIB: '
                  + '; '.join(lb.diff_snapshots(snap0, snap1)[:3])))
+        undo_empty_appends()
 
     @staticmethod
     def _n_items(mgr):
@@ -770,6 +771,32 @@ def mgr_kind(mgr):
             'RtStateTransaction': 'rt', 'OperationalStateTransaction': 'operational'}.get(type(mgr).__name__)
 
 
+def _sample_member(obj, name):
+    """a value the list property `name` of `obj` accepts (declared value class; strings for the string / handle lists)"""
+    prop = getattr(type(obj), name, None)
+    vc = getattr(prop, 'value_class', None)
+    if vc is str or 'String' in type(prop).__name__ or 'HandleRef' in type(prop).__name__ or 'RefList' in type(prop).__name__:
+        return 'verif.late.write'
+    if vc is Decimal or 'Decimal' in type(prop).__name__:
+        return Decimal(7)
+    if isinstance(vc, type):
+        try:
+            return vc()
+        except Exception:  # noqa: BLE001
+            return None
+    return None
+
+
+_EMPTY_APPENDS = []
+
+
+def undo_empty_appends():
+    """take the probe members out of the formerly empty lists again (after the snapshots were compared): the members are
+    default-constructed and not valid content for a later commit"""
+    while _EMPTY_APPENDS:
+        _EMPTY_APPENDS.pop().clear()
+
+
 def deep_scribble(obj, depth=0):
     """Write into every nested mutable object reachable through container properties (lists, sub-objects)."""
     if depth > 6 or not hasattr(obj, 'sorted_container_properties'):
@@ -784,8 +811,12 @@ def deep_scribble(obj, depth=0):
                 deep_scribble(x, depth + 1)
             if val:
                 val.append(val[0])
-            elif name in ('Validator', 'Identification'):
-                pass
+            else:
+                # an EMPTY list is shareable state too: put a member of the declared type into it
+                x = _sample_member(obj, name)
+                if x is not None:
+                    val.append(x)
+                    _EMPTY_APPENDS.append(val)
         elif hasattr(val, 'sorted_container_properties'):
             deep_scribble(val, depth + 1)
             for n2, _ in val.sorted_container_properties():
